@@ -23,6 +23,8 @@ DEFAULT_POLICIES["attrs"].update({
     "Txt.strip": lambda I, a, k, n: Opaque("str"),
     "Txt.rstrip": lambda I, a, k, n: SV(z3.Function("rstrip_txt", sort_of(TXT), sort_of(TXT))(a[0].t), TXT),
     "Txt.splitlines": lambda I, a, k, n: Opaque("lines"),
+    # text.replace(a, b) with constant a, b: a deterministic function of the text (used for line-ending conversion)
+    "Txt.replace": lambda I, a, k, n: SV(z3.Function("replace_txt_" + "".join(f"{ord(c):02x}" for c in str(a[1]) + "|" + str(a[2]))[:60], sort_of(TXT), sort_of(TXT))(a[0].t), TXT),
 })
 
 
